@@ -120,7 +120,18 @@ func ruleC03_2(c *Ctx) {
 	for _, fn := range c.reachableFrom(uk) {
 		instrsOf(fn, func(in ssa.Instruction) {
 			if fa, ok := in.(*ssa.FieldAddr); ok && ptrTo(fa.X.Type(), "net/url", "URL") {
-				fields[fieldName(fa.X.Type(), fa.Field)] = c.P.InstrPos(in)
+				// a member that is only written (a private copy of the URL being prepared) is not read
+				onlyWritten := fa.Referrers() != nil && len(*fa.Referrers()) > 0
+				if onlyWritten {
+					for _, r := range *fa.Referrers() {
+						if st, ok := r.(*ssa.Store); !ok || st.Addr != ssa.Value(fa) {
+							onlyWritten = false
+						}
+					}
+				}
+				if !onlyWritten {
+					fields[fieldName(fa.X.Type(), fa.Field)] = c.P.InstrPos(in)
+				}
 			}
 			if call := callOf(in); call != nil && !call.IsInvoke() {
 				if sc := call.StaticCallee(); sc != nil && sc.Signature.Recv() != nil && ptrTo(sc.Signature.Recv().Type(), "net/url", "URL") {
@@ -283,7 +294,7 @@ func ruleC03_2(c *Ctx) {
 				return
 			}
 			nq++
-			for _, dc := range dominatingConds(add.Block()) {
+			for _, dc := range controlConds(add.Block()) {
 				for _, lf := range condLeaves(dc.cond, dc.onTrue) {
 					okLeaf := false
 					if bo, ok := lf.v.(*ssa.BinOp); ok && (bo.Op == token.EQL || bo.Op == token.NEQ) {
@@ -710,4 +721,112 @@ func ruleC03_7b(c *Ctx) {
 func isByteConst(v ssa.Value, b byte) bool {
 	k, ok := constInt(v)
 	return ok && k == int64(b)
+}
+
+// ruleDotAfterDecode (C07.9 / C09.10; not C03: the defect never lets two different resources share an entry): RFC 3986 §6.2.2 equivalence takes percent-encoding normalisation and
+// dot-segment removal together: "/a/%2e%2e/b" is "/b". The library's dot-segment remover (net/url's reference
+// resolution, path.Clean, …) looks at the escaped path and knows only the literal "." and "..". Necessary condition
+// decided here: in the key function's tree, the path handed to each dot-segment remover depends on the result of the
+// percent normaliser (the function (string) string that consults the unreserved predicate). Otherwise `GET /a/%2e%2e/b`
+// misses what `GET /b` stored, and an unsafe request to the one spelling leaves the other spelling's entry in place.
+func ruleDotAfterDecode(c *Ctx, rule string) {
+	if !c.Need(rule, "urlKey") {
+		return
+	}
+	uk := c.A.F("urlKey")
+	tree := c.reachableFrom(uk)
+	desc := "the path given to the dot-segment remover has passed the percent normaliser"
+	// the unreserved predicate and the normalisers that consult it
+	var pred *ssa.Function
+	for _, fn := range tree {
+		ps, rs := sigParams(fn), sigResults(fn)
+		if len(ps) == 1 && len(rs) == 1 && isBoolType(rs[0]) {
+			if b, ok := ps[0].Underlying().(*types.Basic); ok && b.Info()&types.IsInteger != 0 && intConstsIn(fn)['~'] {
+				pred = fn
+			}
+		}
+	}
+	if pred == nil {
+		c.Undecided(rule, "dot-after-decode", desc, "no unreserved predicate below the key function")
+		return
+	}
+	norm := map[*ssa.Function]bool{}
+	for _, fn := range tree {
+		ps, rs := sigParams(fn), sigResults(fn)
+		if len(ps) == 1 && len(rs) == 1 && isStringType(ps[0]) && isStringType(rs[0]) {
+			for _, g := range c.reachableFrom(fn) {
+				if g == pred {
+					norm[fn] = true
+				}
+			}
+		}
+	}
+	if len(norm) == 0 {
+		c.Undecided(rule, "dot-after-decode", desc, "no (string) string function below the key function consults "+c.P.ShortName(pred))
+		return
+	}
+	isNorm := func(cc *ssa.Call) bool { sc := cc.Call.StaticCallee(); return sc != nil && norm[sc] }
+	// does v (or, for a pointer to a local struct, anything stored into its members) depend on the normaliser?
+	var fed func(v ssa.Value, depth int) bool
+	fed = func(v ssa.Value, depth int) bool {
+		if depth > 4 {
+			return false
+		}
+		if c.An.dependsOnCallFull(v, isNorm) {
+			return true
+		}
+		if al, ok := v.(*ssa.Alloc); ok {
+			if refs := al.Referrers(); refs != nil {
+				for _, r := range *refs {
+					if fa, ok := r.(*ssa.FieldAddr); ok && fa.Referrers() != nil {
+						for _, u := range *fa.Referrers() {
+							if st, ok := u.(*ssa.Store); ok && st.Addr == fa && fed(st.Val, depth+1) {
+								return true
+							}
+						}
+					}
+				}
+			}
+		}
+		return false
+	}
+	n := 0
+	for _, fn := range tree {
+		instrsOf(fn, func(in ssa.Instruction) {
+			cc := callOf(in)
+			if cc == nil {
+				return
+			}
+			var pathArgs []ssa.Value
+			switch {
+			case callIsMethod(cc, "net/url", "URL", "ResolveReference"):
+				_, args := recvAndArgs(cc)
+				pathArgs = args
+			case callIsMethod(cc, "net/url", "URL", "JoinPath"):
+				recv, args := recvAndArgs(cc)
+				pathArgs = append([]ssa.Value{recv}, args...)
+			case callIsPkgFunc(cc, "path", "Clean"), callIsPkgFunc(cc, "path", "Join"), callIsPkgFunc(cc, "path/filepath", "Clean"), callIsPkgFunc(cc, "net/url", "JoinPath"):
+				pathArgs = cc.Args
+			default:
+				return
+			}
+			n++
+			where := c.P.ShortName(fn) + "@" + c.P.InstrPos(in)
+			ok := false
+			for _, a := range pathArgs {
+				if fed(a, 0) {
+					ok = true
+				}
+			}
+			key := fmt.Sprintf("dot-after-decode fn=%s#%d", c.P.ShortName(fn), n)
+			if ok {
+				c.Pass(rule, key, desc, where)
+			} else {
+				c.Fail(rule, key, desc, where+": dot segments are removed from the path as escaped by the client; `/a/%2e%2e/b` and `/%2e/b` keep their dots and get a key of their own, although they are `/b` under RFC 3986 §6.2.2 (a GET misses; an unsafe request to one spelling does not invalidate the other)")
+			}
+		})
+	}
+	if n == 0 {
+		c.Undecided(rule, "dot-after-decode", desc, "no dot-segment remover (ResolveReference, JoinPath, path.Clean) below the key function")
+	}
 }
